@@ -280,6 +280,11 @@ func (hrw *httpReadWriter) Write(ctx context.Context, rpc *Rpc) error {
 	resp, err := client.Do(r)
 
 	if err != nil {
+		if ctx.Err() != nil {
+			// The caller gave up on this write (its context ended): that says
+			// nothing about the connection, which other calls are still using.
+			return err
+		}
 		log.Error().Err(err).Msgf("HttpRpcReadWriter: failed to write")
 		// TODO: retry
 		hrw.cancel()
